@@ -448,7 +448,13 @@ Proof.
   - pose proof (pm_dedup_incl pins nm 1 20 1 seen e) as HI.
     destruct (pm_dedup nm 1 20 1 pins seen) as [t s']. cbn [fst] in *. apply in_app_or in H as [H|H]; apply in_or_app;
       [left; exact (HI H)|right; exact H].
-  - destruct pins as [|p r]; [destruct H|]. destruct (pm_dedup_incl [p] nm 2 30 0 seen e H) as [<-|[]]. left. reflexivity.
+  - destruct pins as [|p r]; [destruct H|].
+    pose proof (pm_dedup_incl [p] nm 2 30 0 seen e) as HI.
+    destruct (pm_dedup nm 2 30 0 [p] seen) as [t s']. destruct (kmem (nm, 0, 70) s'); cbn [fst] in *.
+    + destruct (HI H) as [<-|[]]. left. reflexivity.
+    + apply in_app_or in H as [H|H].
+      * destruct (HI H) as [<-|[]]. left. reflexivity.
+      * destruct H as [<-|[]]. right. left. reflexivity.
   - exact (pm_dedup_incl _ _ _ _ _ _ _ H).
   - destruct pins as [|t0 [|e0 r]]; try (destruct H; fail).
     pose proof (pm_dedup_incl [t0] nm 1 60 0 seen e) as HA.
@@ -1320,7 +1326,7 @@ Proof.
   intros [k nm pins h] c. unfold hoist_loop. cbn [d_kind d_pins d_name].
   destruct k; try reflexivity; try (apply cbu_cfg_only, pm_cfg_only); try apply wr_after_pm.
   - destruct pins as [|p r]; [reflexivity|]. cbn. unfold has_cfg. cbn. rewrite Z.eqb_refl. reflexivity.
-  - destruct pins as [|p r]; reflexivity.
+  - destruct pins as [|p r]; [reflexivity|]. cbn. unfold has_cfg. cbn. rewrite Z.eqb_refl. reflexivity.
   - destruct pins as [|t [|e r]]; reflexivity.
 Qed.
 
@@ -2556,3 +2562,62 @@ Lemma ultra_rebound_refuted_ex : exists its inp n,
   transl_ok its = true /\ one_main_last its = true /\ forallb nested_decl_free (all_stmts its) = true /\
   well_placed its = false /\ cbu (exec inp n its) = false.
 Proof. exists w_rebound_ultra, no_input, 0%nat. vm_compute. repeat split; reflexivity. Qed.
+
+(* ------------------------------------------------------------------ loop-top Buttons (emitter.py since 97f26e6) *)
+(* a Button declared at the top of the main-loop body is configured and sampled in setup() exactly like one declared
+   before the loop: same hoisted block; and with the dedup sets, whenever the name has not had its start-up sample
+   yet the sample is emitted, after the pinMode line if that is new, and the name is entered in button_init_emitted *)
+Lemma looptop_button_hoist : forall d, d_kind d = KButton -> hoist_loop d = hoist_setup d.
+Proof. intros [k nm pins h] Hk. cbn [d_kind] in Hk. subst k. reflexivity. Qed.
+
+Lemma looptop_button_sampled : forall nm pin r h seen,
+  kmem (nm, 0, 70) seen = false -> pin <> 0 ->
+  let d := mkDecl KButton nm (pin :: r) h in
+  exists t, fst (hoist_loopD d seen) = t ++ [EUse (RPin pin) false] /\
+            (t = [] \/ t = [ECfg (RPin pin) 2]) /\
+            (kmem (nm, pin, 30) seen = false -> t = [ECfg (RPin pin) 2]) /\
+            kmem (nm, 0, 70) (snd (hoist_loopD d seen)) = true /\
+            fst (hoist_loopD d (snd (hoist_loopD d seen))) = [].
+Proof.
+  intros nm pin r h seen H70 Hpin d. unfold d, hoist_loopD. cbn [d_kind d_pins d_name pm_dedup].
+  assert (Hne : forall s, kmem (nm, 0, 70) ((nm, pin, 30) :: s) = kmem (nm, 0, 70) s).
+  { intro s. unfold kmem. cbn [existsb]. unfold key_eqb at 1. cbn [fst snd].
+    replace (0 =? pin) with false by (symmetry; apply Z.eqb_neq; intro E; apply Hpin; symmetry; exact E).
+    rewrite andb_false_r. reflexivity. }
+  assert (Hself : forall s, kmem (nm, 0, 70) ((nm, 0, 70) :: s) = true).
+  { intro s. unfold kmem. cbn [existsb]. unfold key_eqb at 1. cbn [fst snd]. rewrite name_eqb_refl. reflexivity. }
+  assert (H30 : forall s, kmem (nm, pin, 30) ((nm, 0, 70) :: s) = kmem (nm, pin, 30) s).
+  { intro s. unfold kmem. cbn [existsb]. unfold key_eqb at 1. cbn [fst snd]. rewrite andb_false_r. reflexivity. }
+  assert (H30self : forall s, kmem (nm, pin, 30) ((nm, pin, 30) :: s) = true).
+  { intro s. unfold kmem. cbn [existsb]. unfold key_eqb at 1. cbn [fst snd]. rewrite name_eqb_refl, Z.eqb_refl. reflexivity. }
+  destruct (kmem (nm, pin, 30) seen) eqn:E30.
+  - rewrite H70. cbn [fst snd]. exists []. repeat split.
+    + left. reflexivity.
+    + intro Hc. discriminate Hc.
+    + apply Hself.
+    + rewrite H30, E30, Hself. reflexivity.
+  - rewrite Hne, H70. cbn [fst snd]. exists [ECfg (RPin pin) 2]. repeat split.
+    + right. reflexivity.
+    + apply Hself.
+    + rewrite H30, H30self, Hself. reflexivity.
+Qed.
+
+(* def f(): mon.write("m9")
+   while True: btn = Button(4, on_click=f); mon.write("m2")        the pin is HIGH from power-up on *)
+Definition w_looptop_button : list item :=
+  [IStmt (SDecl d_mon); IFunc n_f [SMark 9 (Some n_mon)];
+   IMainLoop [SDecl (mkDecl KButton n_btn [4] (Some n_f)); SMark 2 (Some n_mon)]].
+
+Definition high_input : Z -> nat -> bool := fun _ _ => true.
+Definition rising_input : Z -> nat -> bool := fun _ k => negb (Nat.eqb k 0).
+
+(* setup() configures and samples the pin; a level that is HIGH from the start is no click, a level that rises after the
+   start-up sample is one click, in the first pass *)
+Lemma looptop_button_example :
+  well_placed w_looptop_button = true /\ transl_ok w_looptop_button = true /\
+  exec_phases high_input 2 w_looptop_button =
+    ([ECfg (RPin 4) 2; EUse (RPin 4) false; ECfg RSer 0],
+     [[EPoll 4; EUse RSer true; EMark 2]; [EPoll 4; EUse RSer true; EMark 2]], false) /\
+  snd (fst (exec_phases rising_input 2 w_looptop_button)) =
+     [[EPoll 4; EHUse RSer true; EHand 9; EUse RSer true; EMark 2]; [EPoll 4; EUse RSer true; EMark 2]].
+Proof. vm_compute. repeat split; reflexivity. Qed.
